@@ -49,7 +49,7 @@ def bound(tier):
     if tier == "thorough":
         return "all strings <=5 over 28 chars; all fragment sequences <=3 over 74 fragments and 4 over 24 fragments x 2 separators; token mutations of 8 programs"
     return ("all strings <=4 over 28 chars; all fragment sequences <=2 over 74 fragments and of length 3 over 42 core fragments, x 2 separators; "
-            "token mutations of 8 programs; 18 constructs x all <=3-deep wrapper nestings x table on/off; pathological nesting/recursion family incl. 72 runaway self-applications (1-3 per level x 6 guards); all loop-bound pairs in [-3,3]^2")
+            "token mutations of 8 programs; 18 constructs x all <=3-deep wrapper nestings x table on/off; pathological nesting/recursion family incl. 72 runaway self-applications (1-3 per level x 6 guards) and all sequences of <=4 mutually referring symbol definitions over 8 lines; all loop-bound pairs in [-3,3]^2")
 
 
 def cases(tier, seed):
@@ -242,8 +242,16 @@ def run_special():
                 app = (guard + "\n" + emit + "grow()\n" + ("}\n" if guard else "")) * k
                 texts.append("en := 1\n.macro grow() {\n" + app + "}\ngrow()\n")
                 texts.append("en := 1\n.macro grow(n) {\n" + app.replace("grow()", "grow(n+1)") + "}\n*=0x018000\ngrow(0)\n")
+    # symbol definitions that refer to each other, to themselves or to nothing: all sequences of <=4 lines
+    import itertools as _it
+    sym_lines = ["a := 0", "a = a + 1", "a = b", "b = a + 1", "b = nope", ".db a", "a:", "b := a"]
+    for nl in (1, 2, 3, 4):
+        for seq in _it.product(sym_lines, repeat=nl):
+            texts.append("\n".join(seq) + "\n")
     for t in texts:
         evals += run_input(t, ENTRIES_PROG, viol, stats, big=True)
+        if len(viol) > 20:
+            break  # the run already fails; every further non-terminating input would cost its whole budget
     # every loop-bound pair, literal and through constants / macro parameters: empty and reversed ranges must simply end
     for a in range(-3, 4):
         for b in range(-3, 4):
